@@ -263,7 +263,8 @@ def prepare(h, builds, snaps):
                     ie = sn.edges.get(e.out0)
                     if ie and ie.get('hash') and not e.phony: known[e.eval_command()] = ie['hash']
                 skip = sn.parse_error or sn.manifest_rebuilt or any('build.ninja' in e.outs for e in g.edges) \
-                       or st.opts.get('crash') is not None
+                       or st.opts.get('crash') is not None \
+                       or (st.opts.get('pce') and any(e.selfref for e in g.edges))      # -w phonycycle=err keeps the legacy self-reference: the scan model's input convention has it filtered
                 targets = st.targets or enginecheck.default_targets(g)
                 if not st.targets and sn.first_exit and 'could not determine root nodes' in sn.first_exit[1]: skip = True
                 if sn.first_exit and sn.first_exit[1].startswith('unknown target'): skip = True
@@ -275,7 +276,7 @@ def prepare(h, builds, snaps):
             disk.files = dict(b.files); disk.now = b.now
             log, deps = b.log, b.deps
         else:
-            disk.apply(st.line)
+            for l_ in st.line.split('\n'): disk.apply(l_)      # (a manifest rewrite of a split graph is two edits)
     return jobs
 
 def check(h, builds, raw=None):
